@@ -42,6 +42,11 @@ func genBase(r *Rng, prop string) *Scenario {
 	case "C04":
 		return genC04(r)
 	case "C06":
+		if r.chance(0.08) {
+			// well-formed traffic through a ServeMux with multi-level filters:
+			// "never panics" also covers what the reader goroutine calls
+			return genC20(r)
+		}
 		return genC06(r)
 	case "C07":
 		return genC07(r)
